@@ -8,6 +8,7 @@ import (
 	"io"
 	"net"
 	"os"
+	"runtime"
 	"runtime/debug"
 	"strings"
 	"sync"
@@ -363,81 +364,75 @@ func c19churn(idx int) run.Result {
 	var wg sync.WaitGroup
 	sem := make(chan struct{}, 1+r.Intn(32))
 	var mu sync.Mutex
-	for i := 0; i < cycles; i++ {
-		mu.Lock()
-		kind := rng.Pick(r, churnEndings)
-		cr := rng.New(c19.seed, rng.Str("C19c"), uint64(idx), uint64(i))
-		mu.Unlock()
-		wg.Add(1)
-		sem <- struct{}{}
-		go func() {
-			defer wg.Done()
-			defer func() { <-sem }()
-			tick := time.NewTicker(200 * time.Millisecond)
-			done := make(chan struct{})
+	var after counters
+	desc := map[string]any{"cycles": cycles, "baseline": base.String(), "max_in_flight": cap(sem)}
+	// the churn runs in segments of 1000 cycles; each segment is judged at its own fixed point with the
+	// collector still off, and only then is a collection allowed (it can no longer mask that segment's leaks)
+	for done := 0; done < cycles; {
+		seg := 1000
+		if cycles-done < seg {
+			seg = cycles - done
+		}
+		for i := done; i < done+seg; i++ {
+			mu.Lock()
+			kind := rng.Pick(r, churnEndings)
+			cr := rng.New(c19.seed, rng.Str("C19c"), uint64(idx), uint64(i))
+			mu.Unlock()
+			wg.Add(1)
+			sem <- struct{}{}
 			go func() {
-				for {
-					select {
-					case <-tick.C:
-						sconn.NextSeq() // a connection in flight is progress for the child watchdog
-					case <-done:
-						tick.Stop()
-						return
+				defer wg.Done()
+				defer func() { <-sem }()
+				tick := time.NewTicker(200 * time.Millisecond)
+				fin := make(chan struct{})
+				go func() {
+					for {
+						select {
+						case <-tick.C:
+							sconn.NextSeq() // a connection in flight is progress for the child watchdog
+						case <-fin:
+							tick.Stop()
+							return
+						}
 					}
-				}
+				}()
+				c19churnOne(plain, tlsPort, p, cr, kind)
+				close(fin)
+				sconn.NextSeq()
 			}()
-			c19churnOne(plain, tlsPort, p, cr, kind)
-			close(done)
-			sconn.NextSeq()
-		}()
-		res.Count("churn:"+kind, 1)
-	}
-	wg.Wait()
-	after, settled := settle(&base)
-	desc := map[string]any{"cycles": cycles, "baseline": base.String(), "after": after.String(), "max_in_flight": cap(sem)}
-	if !settled {
-		res.Inconclusive = "counters still moving at the end of the grace window: " + after.String()
-		return res
-	}
-	if after.goroutines > base.goroutines || after.registry > base.registry || after.fds > base.fds {
-		_, dump := serverGoroutines()
-		// histogram of where the remaining server goroutines are parked
-		hist := map[string]int{}
-		for _, g := range strings.Split(dump, "\n\n") {
-			var fr []string
-			for _, l := range strings.Split(g, "\n") {
-				if l == "" || strings.HasPrefix(l, "\t") || strings.HasPrefix(l, "goroutine ") {
-					continue
-				}
-				if i := strings.Index(l, "("); i > 0 {
-					l = l[:i]
-				}
-				if j := strings.LastIndex(l, "/"); j >= 0 {
-					l = l[j+1:]
-				}
-				fr = append(fr, l)
-			}
-			if len(fr) > 0 {
-				k := strings.Join(fr, " < ")
-				hist[clipS(k, 400)]++
-			}
+			res.Count("churn:"+kind, 1)
 		}
-		dump = fmt.Sprintf("where the server goroutines are parked: %v\n", hist) + dump
-		fdl := ""
-		if es, err := os.ReadDir("/proc/self/fd"); err == nil {
-			for _, e := range es {
-				t, _ := os.Readlink("/proc/self/fd/" + e.Name())
-				fdl += e.Name() + "->" + t + " "
+		wg.Wait()
+		done += seg
+		var settled bool
+		after, settled = settle(&base)
+		desc["after"] = after.String()
+		desc["cycles_done"] = done
+		if !settled {
+			res.Inconclusive = "counters still moving at the end of the grace window: " + after.String()
+			return res
+		}
+		if after.goroutines > base.goroutines || after.registry > base.registry || after.fds > base.fds {
+			_, dump := serverGoroutines()
+			fdl := ""
+			if es, err := os.ReadDir("/proc/self/fd"); err == nil {
+				for _, e := range es {
+					t, _ := os.Readlink("/proc/self/fd/" + e.Name())
+					fdl += e.Name() + "->" + t + " "
+				}
 			}
+			what := "goroutines"
+			if after.registry > base.registry {
+				what = "registry"
+			} else if after.fds > base.fds && after.goroutines <= base.goroutines {
+				what = "descriptors"
+			}
+			res.Violate("C19:leak:"+what, "under connect/disconnect churn the number of server goroutines, open descriptors and registry entries returns to its idle baseline", fmt.Sprintf("baseline %s, after %d cycles %s (fixed point)\n%s\nfds: %s", base, done, after, clipS(dump, 2000), clipS(fdl, 800)), desc)
+			return res
 		}
-		what := "goroutines"
-		if after.registry > base.registry {
-			what = "registry"
-		} else if after.fds > base.fds && after.goroutines <= base.goroutines {
-			what = "descriptors"
-		}
-		res.Violate("C19:leak:"+what, "under connect/disconnect churn the number of server goroutines, open descriptors and registry entries returns to its idle baseline", fmt.Sprintf("baseline %s, after %d cycles %s (fixed point)\n%s\nfds: %s", base, cycles, after, clipS(dump, 2000), clipS(fdl, 800)), desc)
-		return res
+		sconn.NextSeq()
+		runtime.GC() // this segment's verdict is in: memory may be reclaimed now
+		sconn.NextSeq()
 	}
 	// the server still works
 	c, err := dialSrv(plain)
